@@ -71,6 +71,13 @@ def mon_mapping_asset(case, ev, prefix='asset'):
                 colnz[np.unique(s.A.tocoo().col)] = True
             case.check(prefix + '.unmapped_inert', bool(np.all(s.c[un] == 0) and not colnz[un].any()), **who, unmapped=list(map(int, un[:10])),
                        c=list(s.c[un][:10]))
+    # the rows of one variable agree on what the variable is (asset, name)
+    if 'var_name' in m.columns and 'type' in m.columns and len(m):
+        ident = {}
+        for i_, a_, vn_, ty_ in zip(m.index, m['asset'] if 'asset' in m.columns else [''] * len(m), m['var_name'], m['type']):
+            ident.setdefault(int(i_), set()).add((str(a_), str(vn_)))          # (the kind may differ per row: an on-flag has an internal row and a fuel-dispatch row)
+        mixed = [j for j, v_ in ident.items() if len(v_) > 1]
+        case.check(prefix + '.rows_of_a_variable_agree', not mixed, **who, first=[{'variable': j, 'rows': sorted(ident[j])[:3]} for j in mixed[:2]])
     obj = ev.obj
     if obj is not None and 'asset' in m.columns:
         case.check(prefix + '.names_asset', bool((m['asset'] == obj.name).all()), **who, found=list(map(str, m['asset'].unique()[:5])))
